@@ -132,7 +132,7 @@ def c19(tier, seed):
 
         def mutant_run(name):
             # anti-vacuity: with a side condition of Inline / Extract removed the invariant must fail
-            out, res = pl.tlc_generate(run, 'Arrange', arrange_cfg(1, 0, [2, 5], ['E', 'A'], ['MeaningPreserved'], mutation=name),
+            out, res = pl.tlc_generate(run, 'Arrange', arrange_cfg(1, 0, [2, 3, 5], ['E', 'A'], ['MeaningPreserved'], mutation=name),
                                        'mut-%s.ndjson' % name, workers=1, timeout=1200, check_ok=False,
                                        what='Arrange with mutation %s (must violate MeaningPreserved)' % name)
             return name, ('MeaningPreserved is violated' in res['error'])
